@@ -143,6 +143,19 @@ func oneHotKey(pos int) []byte {
 	return k
 }
 
+var structuredKeys = func() [][]byte {
+	asc := make([]byte, 32)
+	half := make([]byte, 32)
+	for i := range asc {
+		asc[i] = byte(i)
+		if i >= 16 {
+			half[i] = 0x5a
+		}
+	}
+	return [][]byte{bytes.Repeat([]byte{0x01}, 32), bytes.Repeat([]byte{0xff}, 32), bytes.Repeat([]byte{0x07}, 32), bytes.Repeat([]byte{0x80}, 32),
+		asc, half, []byte("0123456789abcdef0123456789abcdef"), bytes.Repeat([]byte{' '}, 32)}
+}()
+
 func keyOfClass(c string, rng *rand.Rand) []byte {
 	mk := func(n int) []byte {
 		b := make([]byte, n)
@@ -231,16 +244,26 @@ func init() {
 				for pos := 0; pos < 32; pos++ {
 					jobs = append(jobs, job{raw, c, pos})
 				}
+			} else if c.AK == "good1" && c.Tamper == "none" && (c.GK == "good1" || c.GK == "good2") && c.GK2 == "none" && (c.Carrier == "meta" || c.P == "short") {
+				// "a 32-byte key" is ANY 32 bytes but all zeros: the class is refined to keys with structure - one byte
+				// repeated, ascending bytes, a zero half, ASCII text
+				jobs = append(jobs, job{raw, c, 0})
+				for k := range structuredKeys {
+					jobs = append(jobs, job{raw, c, 32 + k})
+				}
 			} else {
 				jobs = append(jobs, job{raw, c, []int{0, 7, 24, 31, 16, 25}[i%6]})
 			}
 		}
 		for _, jb := range jobs {
 			raw, c := jb.raw, jb.c
-			onehot := oneHotKey(jb.pos)
+			onehot := oneHotKey(jb.pos % 32)
 			keyOf := func(cl string) []byte {
 				if cl == "onehot" {
 					return onehot
+				}
+				if cl == "good1" && jb.pos >= 32 {
+					return structuredKeys[jb.pos-32]
 				}
 				return keyFor(cl)
 			}
